@@ -428,9 +428,7 @@ pub fn cands_corpus(or: &Oracles, tier_quick: bool, seed: u64) -> Vec<String> {
         out.push(b.to_string());
         for j in 0..n_sfx {
             let s = if tier_quick { sk[rng.below(sk.len())] } else { sk[j] };
-            if tier_quick && rng.below(3) != 0 {
-                continue;
-            }
+
             out.push(format!("{}{}", b, s));
         }
         out.push(format!("({})", b));
